@@ -160,3 +160,36 @@ def write_mc(workdir, base, inputs, extra_defs="", name="MC"):
     with open(path, "w", encoding="utf-8") as handle:
         handle.write("\n".join(lines) + "\n")
     return path
+
+
+@lru_cache(maxsize=None)
+def poly_shapes(n):
+    """Every rooted ordered tree with n leaves whose internal nodes all have at
+    least two children, as pre-order parent arrays."""
+    if n == 1:
+        return ((0,),)
+    out = []
+
+    def compositions(total, parts_min=2):
+        # ordered compositions of total into >= parts_min positive parts
+        def rec(rem, acc):
+            if rem == 0:
+                if len(acc) >= parts_min:
+                    yield tuple(acc)
+                return
+            for first in range(1, rem + 1):
+                yield from rec(rem - first, acc + [first])
+        yield from rec(total, [])
+
+    for comp in compositions(n):
+        for kids in itertools.product(*(poly_shapes(k) for k in comp)):
+            tree = [0]
+            for kid in kids:
+                offset = len(tree)
+                tree.extend(1 if p == 0 else p + offset for p in kid)
+            out.append(tuple(tree))
+    return tuple(out)
+
+
+def poly_shapes_upto(n):
+    return [s for k in range(1, n + 1) for s in poly_shapes(k)]
